@@ -5,6 +5,8 @@ import p_strops
 import p_format
 import p_codecs
 import p_stream
+import p_strpool
+import p_threads
 
 CHECKS = {}
 CHECKS.update(p_conv.CHECKS)
@@ -14,6 +16,8 @@ CHECKS.update(p_strops.CHECKS)
 CHECKS.update(p_format.CHECKS)
 CHECKS.update(p_codecs.CHECKS)
 CHECKS.update(p_stream.CHECKS)
+CHECKS.update(p_strpool.CHECKS)
+CHECKS.update(p_threads.CHECKS)
 
 # executors to compile in setup (each check also builds what it needs on demand)
 PREBUILD = [
@@ -23,6 +27,8 @@ PREBUILD = [
     dict(name="exec_format"),
     dict(name="exec_codecs"),
     dict(name="exec_stream"),
+    dict(name="exec_strpool"),
+    dict(name="exec_threads", san=["-fsanitize=thread"], hooks=False),
     dict(name="exec_conv", variant="substitute", defines=["ST_DEFAULT_VALIDATION=ST::substitute_invalid"]),
     dict(name="exec_conv", variant="assume", defines=["ST_DEFAULT_VALIDATION=ST::assume_valid"]),
 ]
